@@ -361,6 +361,15 @@ fn parent(args: &vpc::Args) -> ! {
     let evaluations = g(chk, "constructor_calls") + g(chk, "subject_calls") + g(rel, "constructor_calls") + g(rel, "subject_calls");
     let quick_bound = "stdpath: {0,1,2,3,62,63}^3 segment triples x every prefix length 0..=n+1 x 2 fills + all 256 (CurrINF,CurrHF); header: path types {0,2,3,4,5,255,1 x reduced cube} x 256 DT/DL,ST/SL nibble pairs x HdrLen {consistent,+1,-1,0,9,255} x boundary truncations b,b+-1 x 2 fills; l4: 64 header shapes x NextHdr{17,202,0,255} x {UDP length 0,7,8,real,65535 | SCMP type 1,2,4,5,6,128,129,130,131,0,255} x 3 body sizes x PayloadLen{0,7,8,real,real+1,65535} x truncations x 2 fills, and every prefix of every upper-layer body through all payload view types; seq: all mutator sequences of length <= 2 on the representative buffers";
     let thorough_bound = "stdpath: full 2^18 segment triples x boundary truncations (every prefix on the reduced cube) x 2 fills + all 256 (CurrINF,CurrHF); header: full 2^18 triples x 16 address-length nibble pairs (all 256 type/length nibble pairs for the reduced cube and the other path types) x HdrLen variants x boundary truncations x 2 fills; l4 as quick; seq: sequences <= 3 on path/payload views, <= 2 on packet/header views";
+    // a few of the enumerated cases written out (first, middle and last case of every space)
+    for space in SPACES {
+        let n = tables.total(space);
+        for case in [0, n / 2, n.saturating_sub(1)] {
+            if case < n {
+                run.sample(12, || json!({"space": space.name(), "case": case, "shape": tables.describe(space, case), "per_case": "every truncation / fill / constructor / accessor and mutator sequence of the space is applied to this shape"}));
+            }
+        }
+    }
     run.finish(
         "exploration",
         json!({
